@@ -42,6 +42,12 @@ func genC03(seed uint64, tier string) *plan.Plan {
 		pl.Cfg["path"] = 1
 		pl.Mode = "sim"
 	}
+	if r.IntN(60) == 0 {
+		// the template in force changes while a data set is being decoded (see c04.go, path 2)
+		pl.Mode = "sim"
+		genC04Concurrent(r, pl)
+		return pl
+	}
 	doms := []uint32{1, 2}
 	o := tmplOpts{unknown: true, degenerate: r.IntN(3) == 0, unsup: r.IntN(4) == 0, user: true, maxFields: 1 + r.IntN(8)}
 	var tmpls []gTemplate
@@ -216,6 +222,10 @@ func tableDiff(cp *collector.CollectingProcess, m *colModel) string {
 }
 
 func runC03(pl *plan.Plan, out *plan.Outcome) {
+	if cfgOr(pl, "path", 0) == 2 {
+		runC04Concurrent(pl, out)
+		return
+	}
 	if cfgOr(pl, "path", 0) == 1 {
 		runC03UDP(pl, out)
 		return
